@@ -6,6 +6,8 @@ import Hifi.Drive.Calendar
 import Hifi.Drive.DurText
 import Hifi.Drive.SoftF64
 import Hifi.Drive.DurFloat
+import Hifi.Drive.EpochText
+import Hifi.Drive.Efmt
 /-
   `driver`: reads `op arg… => impl-result` lines on stdin, answers one line per input:
   `<model result>\t<spec verdict on the impl result>\t<defect tags>\t<branch tag>`.
@@ -18,7 +20,7 @@ def answer (line : String) : String :=
     match (lhs.trimAscii.toString.splitOn " ").filter (· ≠ "") with
     | op :: args =>
       let impl := parseImpl rhs
-      let r := (Hifi.Drive.Duration.handle op args impl) <|> (Hifi.Drive.Epoch.handleConv op args impl) <|> (Hifi.Drive.Epoch.handleOps op args impl) <|> (Hifi.Drive.Epoch.handleMore op args impl) <|> (Hifi.Drive.Dynamical.handle op args impl) <|> (Hifi.Drive.Views.handle op args impl) <|> (Hifi.Drive.Calendar.handle op args impl) <|> (Hifi.Drive.DurText.handle op args impl) <|> (Hifi.Drive.SoftF64.handle op args impl) <|> (Hifi.Drive.DurFloat.handle op args impl)
+      let r := (Hifi.Drive.Duration.handle op args impl) <|> (Hifi.Drive.Epoch.handleConv op args impl) <|> (Hifi.Drive.Epoch.handleOps op args impl) <|> (Hifi.Drive.Epoch.handleMore op args impl) <|> (Hifi.Drive.Dynamical.handle op args impl) <|> (Hifi.Drive.Views.handle op args impl) <|> (Hifi.Drive.Calendar.handle op args impl) <|> (Hifi.Drive.DurText.handle op args impl) <|> (Hifi.Drive.SoftF64.handle op args impl) <|> (Hifi.Drive.DurFloat.handle op args impl) <|> (Hifi.Drive.EpochText.handle op args impl) <|> (Hifi.Drive.Efmt.handle op args impl)
       match r with
       | some a => a.render
       | none => "bad-op\tna\t-\t-"
